@@ -112,9 +112,23 @@ def install_traces():
         def probe(p):
             r = fn(p)
             if REC["on"] and caller_mod().endswith("archive_extractor"):
-                TRACE.append(["probe", nm, p if isinstance(p, str) else repr(p), bool(r)])
+                # the size of what is on disk at that moment is recorded by the harness itself (oracle for the model's
+                # `dsize`), independently of whether the implementation asks for it
+                try:
+                    sz = int(os.stat(p).st_size) if r else 0
+                except OSError:
+                    sz = 0
+                TRACE.append(["probe", nm, p if isinstance(p, str) else repr(p), bool(r), sz])
             return r
         return probe
+    orig_getsize = os.path.getsize
+
+    def traced_getsize(p):
+        r = orig_getsize(p)
+        if REC["on"] and caller_mod().endswith("archive_extractor"):
+            TRACE.append(["getsize", p if isinstance(p, str) else repr(p), int(r)])
+        return r
+    os.path.getsize = traced_getsize
     os.path.isfile = wrap_probe(os.path.isfile, "isfile")
     os.path.exists = wrap_probe(os.path.exists, "exists")
 
